@@ -45,7 +45,12 @@ class Doc:
             with open(plain, "w") as fh:
                 fh.write(self.text())
             pysam.tabix_compress(plain, path, force=True)
-            pysam.tabix_index(path, preset="vcf", force=True)
+            try:
+                pysam.tabix_index(path, preset="vcf", force=True)
+            except OSError:
+                # documents tabix cannot index (e.g. a contig that reappears after another one) stay unindexed: a consumer
+                # that needs the index refuses such a file by itself, one that does not (unphase, stats) must still cope
+                self.unindexed = True
             import os
 
             os.unlink(plain)
